@@ -47,6 +47,7 @@ PDiff(p, v) == [e \in Exps |-> IF e[v] < D THEN RMul(R(e[v] + 1), p[Inc(e, v)]) 
 MulFits(p, m)  == \A e \in Supp(p) : \A v \in Vars : e[v] + m[v] <= D
 PMulMono(p, m) == [e \in Exps |-> IF EGeq(e, m) THEN p[ESub(e, m)] ELSE RZero]
 
+\* (PMul, PPow, PSubstZ are defined after RSum below)
 \* sum of term(e) over a set of exponents
 RSum(term(_), S) == FoldSet(LAMBDA e, acc : RAdd(acc, term(e)), RZero, S)
 
@@ -81,6 +82,20 @@ PShift(p, c) ==
                                            RMul(R(Binom(m[2], e[2])), RPow(c[2], m[2] - e[2]))),
                                       RMul(R(Binom(m[3], e[3])), RPow(c[3], m[3] - e[3])))),
           {m \in Supp(p) : EGeq(m, e)})]
+
+\* product of two polynomials (defined while no exponent exceeds D), powers, and substitution z := g(x, y)
+DegV(p, v)    == IF Supp(p) = {} THEN 0 ELSE Max({e[v] : e \in Supp(p)})
+MulSafe(p, q) == \A v \in Vars : DegV(p, v) + DegV(q, v) <= D
+PMul(p, q)    == LET pp == PForce(p)  qq == PForce(q)  S == Supp(pp) IN
+                 PForce([e \in Exps |-> RSum(LAMBDA m : RMul(pp[m], qq[ESub(e, m)]), {m \in S : EGeq(e, m)})])
+RECURSIVE PPow(_, _)
+PPow(g, k)    == IF k = 0 THEN PConst(ROne) ELSE PMul(g, PPow(g, k - 1))
+SubstSafe(p, g) == \A e \in Supp(p) : \A v \in Vars : (IF v = 3 THEN 0 ELSE e[v]) + e[3] * DegV(g, v) <= D
+PSubstZ(p, g) ==            \* p(x, y, g(x, y)); g does not depend on z
+  LET pp == PForce(p)  S == Supp(pp)
+      pw == [k \in 0..D |-> IF \E e \in S : e[3] = k THEN PPow(g, k) ELSE PZero] IN
+  PForce([e \in Exps |-> RSum(LAMBDA m : RMul(pp[m], IF EGeq(e, <<m[1], m[2], 0>>)
+                                                      THEN pw[m[3]][ESub(e, <<m[1], m[2], 0>>)] ELSE RZero), S)])
 
 \* a polynomial from a list of terms << <<i, j, k>>, <<n, d>> >> (JSON traces, emitted cases)
 RECURSIVE PFromTerms(_)
